@@ -13,7 +13,7 @@ LEVEL = "model_checking"
 RULE = ("every buffer = lead noise (offset 0..63) + frames (1, 2 or 3 from the alphabet) separated by gaps of "
         "{1 frame length, +1 sample, 3 frame lengths} + trailing noise, pulse amplitude per frame in {0.3,0.5,1.0,1.4}, "
         "noise peak in {0,-40,-20,-14.5,-13,-10.5,-10} dB relative to the weakest pulse x shape {const, alternating, LCG}; "
-        "histories: sequences of 2 (3) such buffers through one reader object (state = remainder + running noise "
+        "histories: sequences of 2 and 3 (4) such buffers through one reader object (state = remainder + running noise "
         "floor); every buffer is one real _process_buffer call; distinct = distinct (frames, offset, amps, noise, gap)")
 ASSUMPTIONS = [
     "pulses have exactly the stated amplitude; noise is present on the low samples and in the gaps only ('cleanly modulated')",
@@ -213,8 +213,15 @@ def gen(ctx):
     depth = 3 if ctx.thorough else 2
     for combo in itertools.product(seg, repeat=2):
         hs.append(list(combo))
+    # three (thorough: also four) buffers through one reader over a reduced alphabet: anything that looks at more than
+    # the previous buffer (a window of recent noise estimates, a counter) needs at least three calls to show
+    seg3 = [s_ for s_ in seg if s_["frames"][0] in ("DF17a", "DF4") and s_["db"] in (None, -10)]
+    for combo in itertools.product(seg3, repeat=3):
+        hs.append(list(combo))
     if ctx.thorough:
         for combo in itertools.product(seg[::3], repeat=3):
+            hs.append(list(combo))
+        for combo in itertools.product(seg3, repeat=4):
             hs.append(list(combo))
     return hs
 
